@@ -28,7 +28,13 @@ COMPONENTS = {
     "worldw": {"real": ["yubiagent.ServeAgent", "yubiagent client", "yubiagent *server (hook)", "shimagent.Server (full stack)", "x/crypto ssh/agent protocol server and client", "agent/utils PEM parsing"],
                "stub": ["byte-stream transport = scripted reader/writer or chunked in-memory duplex", "served agent = recording stub YubiAgent (stub stack)", "upstream ssh-agent = reference agent model (full stack)", "PIV tool = stub executable written by the harness"]},
 }
+RULES.update({
+    "C11": "one evaluation = one scheduled run (a plan: agent content, per-task operation lists, strategy and seed); distinct = distinct multisets of (task, operation, outcome); distinct_interleavings = distinct hashes of the order of lock acquisitions and transport reads/writes",
+    "C20": "one evaluation = one scheduled run (connections with wait / request operations, direct waiters, strategy and seed); distinct = distinct (sorted waiter fates, number of requests, connections, direct waiters)",
+})
 COMPONENTS.update({
+    "worldc": {"real": ["shimagent.Server (sync replaced by scheduler-aware simsync through a build overlay)", "yubiagent.ServeAgent, yubiagent client, concrete server (hook)", "x/crypto ssh/agent client (copy with its mutex replaced)", "Go race detector"],
+               "stub": ["scheduler = seeded token scheduler (harness)", "transport = scheduler-aware in-memory duplex", "underlying ssh-agent = reference agent model served by a daemon task", "clock = real but irrelevant: certificate windows are decades away from now on either side"]},
     "worlds": {"real": ["shimagent.Server (via VerifNewFromConn hook; shimagent.New for construction scenarios)", "shimagent filter", "sshutils/cert validation", "keyid.Unmarshal", "x/crypto ssh/agent client"],
                "stub": ["underlying ssh-agent = reference agent model behind a scripted peer (faults per request index)", "clock = testing/synctest bubble", "transport = in-memory duplex (net.Pipe); unix socket only in construction scenarios"]},
     "worldl": {"real": ["crypki.Signer (Sign, postUserSSHCertificate, NewSignerWithGensignConf)", "tlsutils.TLSClientConfiguration", "internal/backoff", "grpc client + go-grpc-middleware retry", "crypto/tls + crypto/x509 (both sides)", "grpc.Server (endpoints)", "sshutils/key.GetPublicKeysFromBytes"],
@@ -42,11 +48,15 @@ ASSUMPTIONS = {
     "worldw": ["x/crypto wire codec trusted for the expected-reply computation of standard requests", "the stub PIV tool is a real child process and is not schedulable"],
 }
 ASSUMPTIONS.update({
+    "worldc": ["the Go race detector and porcupine are trusted", "the token scheduler is invisible to the race detector (raw pipe syscalls in //go:norace code); tasks are joined through one WaitGroup before results are read",
+               "Go map iteration order inside the code under test is not controlled: a replay may need more than one attempt (the driver retries 3 times)"],
     "worlds": ["the reference agent is the specification of the underlying ssh-agent", "x/crypto agent client wire codec trusted", "Go map iteration order inside the shim is not controlled (affects the order of upstream removals only)"],
     "worldl": ["gRPC, crypto/tls, crypto/x509 trusted", "crypki.NewSigner runs outside the bubble; client certificates are valid 1999-2100 so that they are valid in real and simulated time"],
     "worlda": ["crypto/x509 chain verification and math/big trusted", "RSA keys come from a committed pool (1024, 1536, 2048, 3072, 4096 bits)"],
 })
 MUST_PROBE = {
+    "C11": ["linearizable", "transport_disciplined"],
+    "C20": ["released_by_matching_request", "stayed_blocked_without_matching_request", "unsupported_code_immediate", "waiter_parked_before_cleanup"],
     "C06": ["accepted_valid_null", "accepted_valid_nonull", "rejected_by_chain_or_clock", "rejected_by_signature"],
     "C07": ["listing_agrees", "purged_sign_refused", "hardcert_accepted"],
     "C08": ["locked_list_empty", "locked_op_refused", "unlocked_with_passphrase", "wrong_passphrase_refused"],
